@@ -85,14 +85,42 @@ fn mentioned(text: &str, out: &mut BTreeSet<usize>) {
         i += 1;
     }
 }
-fn write_interned(cases: &Cases, out: &Path) {
-    std::fs::create_dir_all(out).unwrap();
-    let mut k = 0;
-    INTERN.with(|it| {
-        let it = it.borrow();
-        for chunk in cases.terms.chunks(cases.shard_size.max(1)) {
+/// Streams cases to disk: a shard file is written as soon as it is full, descriptions are appended to
+/// cases.json one by one (the thorough tier has half a million cases; nothing but the intern table and
+/// the current shard stays in memory).
+struct Out {
+    dir: PathBuf,
+    shard_size: usize,
+    cur: Vec<String>,
+    shards: usize,
+    n: usize,
+    descr: std::io::BufWriter<std::fs::File>,
+}
+const IMPORTS: &str = "From V Require Import Base.Util C20.Model C13.Model C13.Corr.";
+impl Out {
+    fn new(dir: &Path, shard_size: usize) -> Out {
+        std::fs::create_dir_all(dir).unwrap();
+        let mut descr = std::io::BufWriter::new(std::fs::File::create(dir.join("cases.json")).unwrap());
+        use std::io::Write;
+        descr.write_all(b"[").unwrap();
+        Out { dir: dir.to_path_buf(), shard_size, cur: vec![], shards: 0, n: 0, descr }
+    }
+    fn len(&self) -> usize { self.n }
+    fn push(&mut self, term: String, descr: &Value) {
+        use std::io::Write;
+        if self.n > 0 { self.descr.write_all(b",\n").unwrap(); }
+        serde_json::to_writer(&mut self.descr, descr).unwrap();
+        self.n += 1;
+        self.cur.push(term);
+        if self.cur.len() >= self.shard_size { self.flush_shard(); }
+    }
+    fn flush_shard(&mut self) {
+        if self.cur.is_empty() { return; }
+        let chunk = std::mem::take(&mut self.cur);
+        let v = INTERN.with(|it| {
+            let it = it.borrow();
             let mut need: BTreeSet<usize> = BTreeSet::new();
-            for t in chunk { mentioned(t, &mut need); }
+            for t in &chunk { mentioned(t, &mut need); }
             // transitive closure (a name only mentions smaller names)
             let mut todo: Vec<usize> = need.iter().copied().collect();
             while let Some(x) = todo.pop() {
@@ -101,26 +129,32 @@ fn write_interned(cases: &Cases, out: &Path) {
                 for y in m { if need.insert(y) { todo.push(y); } }
             }
             let mut v = String::new();
-            v.push_str(&cases.imports); v.push('\n');
+            v.push_str(IMPORTS); v.push('\n');
             for x in &need {
                 let (ty, text) = &it.defs[*x];
                 if *ty == "str" { v.push_str(&format!("Definition t{} : str := Eval vm_compute in {}.\n", x, text)); }
                 else { v.push_str(&format!("Definition t{} : {} := {}.\n", x, ty, text)); }
             }
-            for (i, t) in chunk.iter().enumerate() { v.push_str(&format!("Definition c{} : {} := {}.\n", i, cases.case_type, t)); }
-            v.push_str(&format!("Definition cases : list ({}) := [", cases.case_type));
+            for (i, t) in chunk.iter().enumerate() { v.push_str(&format!("Definition c{} : case := {}.\n", i, t)); }
+            v.push_str("Definition cases : list case := [");
             for i in 0..chunk.len() { if i > 0 { v.push_str("; "); } v.push_str(&format!("c{}", i)); if i % 20 == 19 { v.push('\n'); } }
             v.push_str("].\n");
-            v.push_str(&format!("Definition corr_fail := Eval vm_compute in (failing {} cases).\n", cases.agree_fn));
-            v.push_str(&format!("Definition prop_fail := Eval vm_compute in (failing {} cases).\n", cases.holds_fn));
+            v.push_str("Definition corr_fail := Eval vm_compute in (failing agree cases).\n");
+            v.push_str("Definition prop_fail := Eval vm_compute in (failing holds cases).\n");
             v.push_str("Print corr_fail.\nPrint prop_fail.\n");
-            std::fs::write(out.join(format!("cases_{}.v", k)), v).unwrap();
-            k += 1;
-        }
-    });
-    let meta = json!({ "shards": k, "shard_size": cases.shard_size, "n": cases.terms.len() });
-    std::fs::write(out.join("shards.json"), serde_json::to_string(&meta).unwrap()).unwrap();
-    std::fs::write(out.join("cases.json"), serde_json::to_string(&cases.descr).unwrap()).unwrap();
+            v
+        });
+        std::fs::write(self.dir.join(format!("cases_{}.v", self.shards)), v).unwrap();
+        self.shards += 1;
+    }
+    fn finish(&mut self) {
+        use std::io::Write;
+        self.flush_shard();
+        self.descr.write_all(b"]").unwrap();
+        self.descr.flush().unwrap();
+        let meta = json!({ "shards": self.shards, "shard_size": self.shard_size, "n": self.n });
+        std::fs::write(self.dir.join("shards.json"), serde_json::to_string(&meta).unwrap()).unwrap();
+    }
 }
 fn istr(x: &str) -> String { intern("str", coq_str(x)) }
 
@@ -267,7 +301,8 @@ fn run_ext(text: &str, file_idx: usize, label: &str) -> Option<Ran> {
     };
     Some(Ran {
         term: format!("CExt {} {}", coq_items(&items), out_term),
-        descr: json!({"kind": "ext", "label": label, "text": text, "out": out_json, "classes": []}),
+        descr: if label.starts_with("exhaustive") { json!({"kind": "ext", "label": label, "file": file_idx, "out": out_json, "classes": []}) }
+               else { json!({"kind": "ext", "label": label, "text": text, "out": out_json, "classes": []}) },
         kind: "ext",
     })
 }
@@ -325,17 +360,33 @@ fn run_case(c: &GCase) -> Option<Ran> {
     let files_term = coq_list(&(0..n).collect::<Vec<_>>(), |i| format!("({}, {})", istr(&c.files[*i].path), coq_items(&file_items[*i])));
     let term = format!("CImp {} {} {} {}", files_term, istr(&c.root_path), coq_items(&root_items), out_term);
     let ana = analyse(c, &file_items, &root_items, &out);
-    let descr = json!({
-        "kind": "imports", "label": c.label,
-        "files": c.files.iter().map(|f| json!({"path": f.path, "text": f.text})).collect::<Vec<_>>(),
-        "root_path": c.root_path, "root_text": c.root_text,
-        "out": match &out {
-            Outcome::Ok(ds) => json!({"ok": ds.iter().map(|d| json!({"name": d.name, "id": d.id})).collect::<Vec<_>>()}),
-            Outcome::Err(m, p) => json!({"err": m, "pos": [p.0, p.1, p.2]}),
-            Outcome::Panic(m) => json!({"panic": m}),
-        },
-        "reference": ana.reference, "classes": ana.classes, "guard": ana.guard, "shape": ana.shape,
-    });
+    let out_json = match &out {
+        Outcome::Ok(ds) => json!({"ok": ds.iter().map(|d| json!({"name": d.name, "id": d.id})).collect::<Vec<_>>()}),
+        Outcome::Err(m, p) => json!({"err": m, "pos": [p.0, p.1, p.2]}),
+        Outcome::Panic(m) => json!({"panic": m}),
+    };
+    let failing = ana.kind == "ok-wrong" || ana.kind == "panic";
+    let descr = if c.label.starts_with("exhaustive") && (!failing || !ana.classes.is_empty()) {
+        // half a million of these in the thorough tier: the texts are written on one line each
+        // ("path: text-with-newlines-as-' / '"); a failure that no known class explains keeps the full form
+        json!({
+            "kind": "imports", "label": c.label,
+            "out": match &out {
+                Outcome::Ok(ds) => format!("ok:{}", ds.iter().map(|d| d.id.to_string()).collect::<Vec<_>>().join(",")),
+                Outcome::Err(m, p) => format!("err@{}:{}:{} {}", p.2, p.0, p.1, m),
+                Outcome::Panic(m) => format!("panic {}", m),
+            },
+            "classes": ana.classes, "guard": ana.guard, "shape": ana.shape,
+        })
+    } else {
+        json!({
+            "kind": "imports", "label": c.label,
+            "files": c.files.iter().map(|f| json!({"path": f.path, "text": f.text})).collect::<Vec<_>>(),
+            "root_path": c.root_path, "root_text": c.root_text,
+            "out": out_json,
+            "reference": ana.reference, "classes": ana.classes, "guard": ana.guard, "shape": ana.shape,
+        })
+    };
     Some(Ran { term, descr, kind: ana.kind })
 }
 
@@ -728,7 +779,13 @@ fn exhaustive(nfiles: usize, max_lines: &[usize], mut emit: impl FnMut(GCase)) {
                 GFile { path: gf.path.clone(), text: render(&gf, i, None) }
             })
             .collect();
-        emit(GCase { root_path: files[0].path.clone(), root_text: files[0].text.clone(), files, label: format!("exhaustive-{}", nfiles) });
+        // compact rendering of the graph, e.g. "m:A<x,*<y|x:|y:B<m": file m has `#import A from "./x.graphql"` then
+        // `#import * from "./y.graphql"`, x has no import, y has `#import B from "./m.graphql"`
+        let compact = (0..nfiles)
+            .map(|i| format!("{}:{}", names[i], per_file[i][idx[i]].iter().map(|(t, s)| format!("{}<{}", s, names[*t])).collect::<Vec<_>>().join(",")))
+            .collect::<Vec<_>>()
+            .join("|");
+        emit(GCase { root_path: files[0].path.clone(), root_text: files[0].text.clone(), files, label: format!("exhaustive-{} {}", nfiles, compact) });
         let mut i = 0;
         loop {
             if i == nfiles { return; }
@@ -949,18 +1006,18 @@ fn main() {
     let args = parse_args();
     let mut rng = Rng::new(args.seed);
     let thorough = args.tier == "thorough";
-    let mut cases = Cases::new("From V Require Import Base.Util C20.Model C13.Model C13.Corr.", "case", "agree", "holds", if thorough { 1500 } else { 400 });
-    let mut distinct: HashSet<String> = HashSet::new();
+    let mut cases = Out::new(&args.out, if thorough { 1500 } else { 400 });
+    let mut distinct: HashSet<u64> = HashSet::new();
     let mut kinds: BTreeMap<String, u64> = BTreeMap::new();
     let mut shapes: BTreeMap<String, u64> = BTreeMap::new();
     let mut labels: BTreeMap<String, u64> = BTreeMap::new();
     let mut classes: BTreeMap<String, u64> = BTreeMap::new();
     let (mut n_guard, mut n_guard_ok, mut unparsed) = (0u64, 0u64, 0u64);
     let mut samples: Vec<Value> = vec![];
-    let mut push = |cases: &mut Cases, c: &GCase, r: Option<Ran>, keep_sample: bool| {
+    let mut push = |cases: &mut Out, c: &GCase, r: Option<Ran>, keep_sample: bool| {
         let Some(r) = r else { unparsed += 1; return; };
         let key = format!("{}|{}|{:?}", c.root_path, c.root_text, c.files.iter().map(|f| (&f.path, &f.text)).collect::<Vec<_>>());
-        distinct.insert(key);
+        { use std::hash::{Hash, Hasher}; let mut h = std::collections::hash_map::DefaultHasher::new(); key.hash(&mut h); distinct.insert(h.finish()); }
         *kinds.entry(r.kind.to_string()).or_default() += 1;
         let lab = c.label.split(' ').next().unwrap_or("").to_string();
         *labels.entry(lab).or_default() += 1;
@@ -971,7 +1028,7 @@ fn main() {
         }
         if let Some(cs) = r.descr.get("classes").and_then(|c| c.as_array()) { for c in cs { *classes.entry(c.as_str().unwrap().to_string()).or_default() += 1; } }
         if keep_sample && samples.len() < 4 { samples.push(r.descr.clone()); }
-        cases.push(r.term, r.descr);
+        cases.push(r.term, &r.descr);
     };
     // 1. corpus
     for c in corpus() { let r = run_case(&c); push(&mut cases, &c, r, true); }
@@ -982,9 +1039,7 @@ fn main() {
         vec![(2, vec![2, 2]), (3, vec![2, 1, 1])]
     };
     for (nf, ml) in &plans {
-        let mut buf = vec![];
-        exhaustive(*nf, ml, |c| buf.push(c));
-        for c in buf { let r = run_case(&c); push(&mut cases, &c, r, false); }
+        exhaustive(*nf, ml, |c| { let r = run_case(&c); push(&mut cases, &c, r, false); });
     }
     // 3. random graphs up to 8 files
     let n_rand = if thorough { 40000 } else { 2500 };
@@ -1025,11 +1080,11 @@ fn main() {
         }
         let _ = std::fs::remove_dir_all(&base);
     }
-    write_interned(&cases, &args.out);
+    cases.finish();
     write_meta(&args.out, &json!({
         "evaluations": cases.len(),
         "distinct_nontrivial": distinct.len(),
-        "rule": "distinct = distinct (resolver content, root path, root text) tuples; every case runs the real parser, resolve_operation_extensions and resolve_operation_imports and is non-trivial in that sense; 'shape' and 'kind' give the split by graph shape and observed outcome",
+        "rule": "exhaustive-N cases are described by their label: files m{fragment A d0, fragment B d1, query}, x{A d100, B d101}, y{A d200}, z{query} in /p, 'm:A<x,*<y|x:|y:B<m' = m has `#import A from \"./x.graphql\"` then `#import * from \"./y.graphql\"`, x none, y `#import B from \"./m.graphql\"`; root = m; out 'ok:<ids>'. distinct = distinct (resolver content, root path, root text) tuples; every case runs the real parser, resolve_operation_extensions and resolve_operation_imports and is non-trivial in that sense; 'shape' and 'kind' give the split by graph shape and observed outcome",
         "samples": samples,
         "distribution": {
             "by_generator": labels, "by_outcome": kinds, "by_shape": shapes,
